@@ -81,6 +81,13 @@ theorem code_facts :
     Generated.C17.recordMaxSizeMin ≤ Generated.C17.recordMaxSizeDefault ∧
     Generated.C17.recordMaxSizeDefault ≤ Generated.C17.recordMaxSizeMax := by decide
 
+/-- two more code shapes the models rest on, regenerated: `scanPaths` lists a file whatever its size — so an emptied file
+is SEEN by `mergeDescs` with its size 0 and restarts (`same_id_shrunk_restarts`, `truncated_file_read_from_beginning`)
+instead of counting as "missing from this scan" —, and every `persistState` call that could marshal the descriptors
+hands them to the storage (the `persist` / `finalPersist` steps of the worker LTS write: `graceful_restart_exact`) -/
+theorem scan_and_persist_facts :
+    Generated.C17.scanListsFilesOfAnySize = true ∧ Generated.C17.persistAlwaysWrites = true := by decide
+
 /-! ## the worker: persisted offsets are ends of confirmed records -/
 
 theorem step_start (c : Cfg) (s s' : S) (l : L) (hs : step c s l = some s') : s'.start = s.start := by
